@@ -91,6 +91,14 @@ def run_all(ctx, scens, rscens, nrandom):
     rc, out = vlib.go_test(ctx, "", ROOT, "TestVerifStatusSave$", env={"VERIF_SCEN": sp, "VERIF_OUT": tp, "VERIF_NRANDOM": nrandom, "VERIF_SNAPDIR": snap}, timeout=1200)
     if rc != 0:
         raise vlib.MachineryError("status save driver failed:\n" + out[-3000:])
+    # end to end: real SourceControl + real RunClientUpdater, the file after the updater's own delayed save; the session
+    # with refused configuration requests leaves its configuration directory among the snapshots that are started for real
+    tp3 = ctx.path("trace_e2e.ndjson")
+    rc, out = vlib.go_test(ctx, "", ROOT, "TestVerifStatusE2E$",
+                           env={"VERIF_OUT": tp3, "VERIF_REAL_CLIENTUPDATER": 1, "VERIF_SNAPDIR": snap}, timeout=600)
+    if rc != 0:
+        raise vlib.MachineryError("status end-to-end driver failed:\n" + out[-3000:])
+    e2e = vlib.read_ndjson(tp3)
     rp = ctx.path("real.ndjson")
     rc, out = vlib.go_test(ctx, "cmd/dastard", CMD, "TestVerifStartup$", timeout=2400,
                            env={"VERIF_OUT": rp, "VERIF_SNAPDIR": snap, "VERIF_NREAL": 10 if ctx.quick() else 80})
@@ -129,14 +137,14 @@ def run_all(ctx, scens, rscens, nrandom):
                 e["hasreal"] = False
                 e["real"] = {"kind": "none", "h": "", "restored": {}}
             events.append(e)
-    # end to end: real SourceControl + real RunClientUpdater, the file after the updater's own delayed save
-    tp3 = ctx.path("trace_e2e.ndjson")
-    rc, out = vlib.go_test(ctx, "", ROOT, "TestVerifStatusE2E$",
-                           env={"VERIF_OUT": tp3, "VERIF_REAL_CLIENTUPDATER": 1}, timeout=600)
-    if rc != 0:
-        raise vlib.MachineryError("status end-to-end driver failed:\n" + out[-3000:])
-    e2e = vlib.read_ndjson(tp3)
+    for e in e2e:
+        if e.get("snap"):
+            r = real.get(e["snap"])
+            if r is None or not r.get("fullstart"):
+                raise vlib.MachineryError("no complete start-up for the end-to-end snapshot %s" % e["snap"])
+            e["startup"] = {"panic": str(r.get("fullpanic") or ""), "restored": r.get("restored") or {}}
     ctx.notes["end_to_end_sessions"] = len(e2e)
+    ctx.notes["end_to_end_sessions_restarted_for_real"] = sum(1 for e in e2e if "startup" in e)
     events.extend(e2e)
     mp = ctx.path("trace_all.ndjson")
     vlib.write_ndjson(mp, events)
